@@ -74,6 +74,9 @@ func CallBuiltin(name string, args []V) (V, *RunErr) {
 		if !ok {
 			return nil, rerr("arg-type", "append to "+TypeName(args[0]))
 		}
+		if a.N+len(args) > maxElems {
+			panic(errOrderDependent)
+		}
 		// P: result contains old + new elements in fresh storage (capacity sharing is excluded by the property)
 		return NewArray(append(append([]V{}, a.Elems()...), args[1:]...), false), nil
 	case "delete":
